@@ -9,6 +9,7 @@ and then use trimesh operations on them at any point.
 """
 
 import abc
+from copy import deepcopy
 
 import numpy as np
 
@@ -135,6 +136,11 @@ class Primitive(Trimesh):
         kwargs.update(self.to_dict())
         # remove the type indicator, i.e. `Cylinder`
         kwargs.pop("kind")
+        # parameters which are not part of the serialized
+        # form, i.e. `sections` or `subdivisions`
+        for k in self.primitive._defaults:
+            if k not in kwargs:
+                kwargs[k] = deepcopy(getattr(self.primitive, k))
         # create a new object with kwargs
         primitive_copy = type(self)(**kwargs)
 
@@ -143,11 +149,12 @@ class Primitive(Trimesh):
             primitive_copy.visual = self.visual.copy()
 
         # copy metadata
-        primitive_copy.metadata = self.metadata.copy()
+        primitive_copy.metadata = deepcopy(self.metadata)
 
         for k, v in self._data.data.items():
             if k not in primitive_copy._data:
-                primitive_copy._data[k] = v
+                # i.e. an overridden center of mass: not a reference
+                primitive_copy._data[k] = deepcopy(v)
 
         return primitive_copy
 
